@@ -346,3 +346,62 @@ Theorem hash_complete :
     model_json G (model_canon G m) = model_json G (model_canon G m') ->
     key G dumps digest H ds m = key G dumps digest H ds m'.
 Proof. exact key_complete_lemma. Qed.
+
+(* ---- the dataset half of the key ---- *)
+
+(* Everything that reaches the hash of a dataset is its [ds_input]: the cells row by row, the
+   column names, what repr() shows of the index, the dtypes.  Frames with the same input — built
+   from a dict, from records, copied, with other attrs or another name of the columns axis — give
+   the same bytes and the same key, for every engine. *)
+Theorem dataset_same_input_same_key :
+  forall G dumps digest (H : string -> digest) rowhash repr_names repr_index repr_dtypes (f g : frame) (m : model G),
+    ds_input f = ds_input g ->
+    key G dumps digest H (ds_bytes rowhash repr_names repr_index repr_dtypes f) m =
+    key G dumps digest H (ds_bytes rowhash repr_names repr_index repr_dtypes g) m.
+Proof. exact key_same_frames. Qed.
+
+(* The bytes can be read back: for frames with the same number of rows, equal bytes mean equal
+   input — given that the row hash is 8 bytes wide and separates the rows of these two frames, that the repr of a list of names
+   and of an index can be read off the front of a text, and that the dtype repr is injective. *)
+Theorem dataset_bytes_read_back :
+  forall rowhash repr_names repr_index repr_dtypes,
+    (forall r, String.length (rowhash r) = 8%nat) ->
+    decodable repr_names -> decodable repr_index -> (forall a b, repr_dtypes a = repr_dtypes b -> a = b) ->
+    forall f g : frame, rows_sep rowhash (f_rows f) (f_rows g) -> List.length (f_rows f) = List.length (f_rows g) ->
+      ds_bytes rowhash repr_names repr_index repr_dtypes f = ds_bytes rowhash repr_names repr_index repr_dtypes g ->
+      ds_input f = ds_input g.
+Proof. exact ds_bytes_read_back. Qed.
+
+(* hash_separates_dataset at full strength: the same model on two frames of the same length that
+   differ in a cell, a column name, the column order, a dtype or a visible part of the index gets
+   different keys (digest collision free on these two inputs).  (_partial in one respect: frames of
+   different length are not covered — the byte format has no length field; see the report.) *)
+Theorem hash_separates_dataset_full :
+  forall G dumps digest (H : string -> digest) rowhash repr_names repr_index repr_dtypes (f g : frame) (m : model G),
+    (forall r, String.length (rowhash r) = 8%nat) -> rows_sep rowhash (f_rows f) (f_rows g) ->
+    decodable repr_names -> decodable repr_index -> (forall a b, repr_dtypes a = repr_dtypes b -> a = b) ->
+    let bytes := ds_bytes rowhash repr_names repr_index repr_dtypes in
+    let d := model_encode G (blank G m) in
+    List.length (f_rows f) = List.length (f_rows g) -> ds_input f <> ds_input g ->
+    H_sep H (bytes f ++ dumps d) (bytes g ++ dumps d) ->
+    key G dumps digest H (bytes f) m <> key G dumps digest H (bytes g) m.
+Proof. exact key_separates_frames. Qed.
+
+(* ---- Results JSON (workflows/results.py) ---- *)
+
+(* results_json_roundtrip: read_results(r.to_json()) gives r back, for every results object whose
+   class name ends in "Results" and whose attributes are JSON-stable plain values without reserved
+   keys, DataFrames, Series and Logs — given that pandas reads a table back from its own
+   orient='table' text (where it does not is C20-JSON-15-DECIMALS, C20's finding) and that neither the
+   table nor the log dictionary uses the keys __class__ / __module__. *)
+Theorem results_json_roundtrip :
+  forall (tbl : Type) (tbl_json : tbl -> list (pkey * pyv)) (tbl_read : list (pkey * pyv) -> option tbl)
+         (logv : Type) (log_json : logv -> list (pkey * pyv)) (log_read : list (pkey * pyv) -> option logv),
+    (forall t, tbl_read (norm_items (tbl_json t)) = Some t) ->
+    (forall t k, reserved_key k = true -> dget k (norm_items (tbl_json t)) = None) ->
+    (forall l, log_read (norm_items (log_json l)) = Some l) ->
+    (forall l k, reserved_key k = true -> dget k (norm_items (log_json l)) = None) ->
+    forall r : results tbl logv, results_supported tbl logv r = true ->
+      exists p, encode_results tbl tbl_json logv log_json r = Some p /\
+                decode_results tbl tbl_read logv log_read (normalise p) = Some r.
+Proof. exact results_roundtrip_lemma. Qed.
